@@ -378,6 +378,10 @@ class Unit:
             hm = s.masked[lp['kw'] + 3:lp['open']]
             mi = re.search(r'\bin\b', hm)
             pat, expr = hdr[:mi.start()].strip(), self.apply_rules(hdr[mi.end():].strip(), where)
+            if k in forusing and re.search(r'\.iter\(\)$', expr) and k not in foriter:
+                # `for x in v.iter()` visits what `for x in v` visits when v is a slice / &Vec (std); the shim takes v
+                self.rewrites.append(('R-for %s iterates like %s' % (expr, expr[:-7]), where, 1))
+                expr = expr[:-7]
             if k in foriter:
                 # the iterated expression uses iterator adapters: replaced by a shim call that yields the
                 # same items (logged); the loop body stays verbatim
